@@ -260,5 +260,76 @@ def attack (a d : α) (s : Arg α) (n : Nat) : Except String (List α) :=
       | .num x => .ok ((head ++ List.replicate n x).take n)
       | .strm xs => .ok ((head ++ xs.tail).take n)
 
+/-! ### `TableLookup` (lazy_synth.py:521-548), `sinusoid` (586-594), `karplus_strong` (624-657) -/
+
+/-- Python list indexing `tbl[j]`, negative indices counted from the end; `none` = IndexError -/
+def pyIndex (tbl : List α) (j : Int) : Option α :=
+  let L : Int := tbl.length
+  if 0 ≤ j ∧ j < L then tbl[j.toNat]?
+  else if -L ≤ j ∧ j < 0 then tbl[(L + j).toNat]?
+  else none
+
+/-- one sample of the oscillator at table position `idx` (lines 536-537):
+    `tbl[int(idx)] * (1. - (idx - int(idx))) + tbl[int(ceil(idx)) - total_length] * (idx - int(idx))` -/
+def lookupAt (tbl : List α) (idx : α) : Option α :=
+  let i := pyInt idx
+  let fr := idx - (i : α)
+  match pyIndex tbl i, pyIndex tbl (pyCeil idx - (tbl.length : Int)) with
+  | some x, some y => some (x * (1 - fr) + y * fr)
+  | _, _ => none
+
+def Arg.map (f : α → α) : Arg α → Arg α
+  | .num x => .num (f x)
+  | .strm xs => .strm (xs.map f)
+
+/-- `TableLookup(tbl, cycles)(freq, phase)`, first `n` samples; `den` is the value of
+    `cycles * 2 * pi`; `freq`, `phase` numbers or streams -/
+def tableCall (tbl : List α) (den : α) (freq phase : Arg α) (n : Nat) : List (Option α) :=
+  let total : α := ((tbl.length : Int) : α)
+  let cycleLength := total / den
+  let step := freq.map (cycleLength * ·)
+  let part := phase.map (cycleLength * ·)
+  (moduloCounter part (.num total) step n).map (lookupAt tbl)
+
+/-- `TableLookup.__getitem__(idx)` (lines 545-548) -/
+def tableGetItem (tbl : List α) (idx : α) : Option α :=
+  let L : Int := tbl.length
+  let i := pyInt idx
+  let fr := idx - (i : α)
+  match pyIndex tbl (i.fmod L), pyIndex tbl ((pyCeil idx).fmod L) with
+  | some x, some y => some (x * (1 - fr) + y * fr)
+  | _, _ => none
+
+/-- `sinusoid(freq, phase)`: `sin` of `modulo_counter(phase, 2*pi, freq)`; the sine and the
+    value of `2 * pi` are parameters (Float for the tie, `Real.sin`, `2π` for the theorem) -/
+def sinusoid {β : Type} (sin : α → β) (twoPi : α) (freq phase : Arg α) (n : Nat) : List β :=
+  (moduloCounter phase (.num twoPi) freq n).map sin
+
+/-- `karplus_strong`: `comb.tau(delay, tau).linearize()(zeros(), memory=memory)` with
+    `delay = 2*pi/freq`, `alpha = e ** (-delay / tau)` given.  The linearised denominator is
+    `1 - alpha z^-D` for an integer delay `D`, else `1 - alpha (1-w) z^-D - alpha w z^-(D+1)`
+    with `D = int(delay)`, `w = delay - D`.  `lm` memory cells `m1 .. m_lm` (short memory is
+    left-padded with zeros), input `zeros()`; each step `m0 = Σ -coeff_k * m_k`, then shift. -/
+def ksTaps (alpha delay : α) : List (Nat × α) :=
+  let D := pyInt delay
+  let w := delay - (D : α)
+  if w = 0 then [(D.toNat, alpha)]
+  else [(D.toNat, alpha * (1 - w)), (D.toNat + 1, alpha * w)]
+
+def ksMemory (lm : Nat) (memory : List α) : List α :=
+  let m := memory.take lm
+  List.replicate (lm - m.length) 0 ++ m
+
+def ksLoop (taps : List (Nat × α)) : Nat → List α → List α
+  | 0, _ => []
+  | fuel + 1, mem =>
+    let m0 := taps.foldl (fun acc t => acc + t.2 * mem.getD (t.1 - 1) 0) 0
+    m0 :: ksLoop taps fuel ((m0 :: mem).take mem.length)
+
+def karplus (alpha delay : α) (memory : List α) (n : Nat) : List α :=
+  let taps := ksTaps alpha delay
+  let lm := (taps.map (·.1)).foldl max 0
+  ksLoop taps n (ksMemory lm memory)
+
 end Arith
 end ALV.C19
